@@ -26,9 +26,9 @@ def warn(msg):
 # 1. fixed-form reader
 # ----------------------------------------------------------------------------
 class Stmt(object):
-    __slots__ = ('line', 'label', 'text')
+    __slots__ = ('line', 'label', 'text', 'error')
     def __init__(self, line, label, text):
-        self.line, self.label, self.text = line, label, text
+        self.line, self.label, self.text, self.error = line, label, text, None
 
 def strip_bang(s, protect_col6):
     """remove a trailing '!' comment (not inside a character literal)."""
@@ -87,13 +87,15 @@ def read_statements(path):
                 rest = l[6:]
             if cont:
                 if cur is None:
-                    raise F2XError('continuation line without a statement', n)
+                    cur = Stmt(n, None, '')
+                    cur.error = 'continuation line without a statement'
+                    stmts.append(cur)
                 cur.text += rest
             else:
                 lab = lab.strip()
-                if lab and not lab.isdigit():
-                    raise F2XError('bad label field %r' % lab, n)
-                cur = Stmt(n, str(int(lab)) if lab else None, rest)
+                cur = Stmt(n, str(int(lab)) if lab.isdigit() else None, rest)
+                if lab and not lab.isdigit():     # reported if the unit is requested
+                    cur.error = 'bad label field %r' % lab
                 stmts.append(cur)
     for s in stmts:
         s.text = squeeze(s.text)
@@ -1020,6 +1022,7 @@ class UnitTranslator(object):
             if cb is None:
                 raise F2XError('COMMON /%s/ has no usable layout' % blk, u.line_start)
             lay = self.prog.member_layout(u, names)
+            renamed = []
             if len(lay) > len(cb.members):
                 raise F2XError('COMMON /%s/ in %s has more members than in %s'
                                % (blk, u.name, cb.unit.name), u.line_start)
@@ -1030,10 +1033,12 @@ class UnitTranslator(object):
                                    'type/shape from %s in %s'
                                    % (blk, k + 1, n, u.name, cn, cb.unit.name),
                                    u.line_start)
-                if n != cn and self.strict:
-                    warn('COMMON /%s/: %s uses name %s for member %s of %s '
-                         '(mapped by position)' % (blk, u.name, n, cn, cb.unit.name))
+                if n != cn:
+                    renamed.append('%s->%s' % (n, cn))
                 self.common_map[n] = (cb, k)
+            if renamed and self.strict:
+                warn('COMMON /%s/ in %s: members mapped by position onto the names '
+                     'of %s: %s' % (blk, u.name, cb.unit.name, ' '.join(renamed)))
             if cb not in self.used_commons:
                 self.used_commons.append(cb)
 
@@ -1157,6 +1162,13 @@ class UnitTranslator(object):
             s0.used = True
             if s0.kind == 'dummy':
                 return Val(mangle(name), 'proc', sym=s0)
+            if self.prog.sig(name) is None and name not in self.prog.externs:
+                self.prog.externs[name] = Sig(name, s0.ftype or self.d.implicit_type(name),
+                                              [Param('a1', 'real')], False, self.line)
+                warn('%s line %d: external procedure %s is only passed as an argument; '
+                     'assuming %s' % (self.unit.name, self.line, name,
+                                      self.prog.externs[name].proto(False)))
+            self.callees.add(name)
             return Val('ref_' + name, 'proc', sym=s0)
         s = self.getsym(name)
         b = self.base_c(s)
@@ -1780,6 +1792,13 @@ class UnitTranslator(object):
                            % (u.kind, u.name), u.line_start)
         if self.strict and self.d.errors:
             raise self.d.errors[0]
+        for st in u.stmts:
+            if st.error and self.strict:
+                raise F2XError(st.error, st.line)
+        for s in self.d.syms.values():
+            if s.kind == 'common' and s.has_data and self.strict:
+                raise F2XError('DATA for COMMON variable %s outside BLOCK DATA is not '
+                               'supported' % s.name, u.line_start)
         for a in u.args:
             s = self.d.syms[a]
             if s.ftype == 'char' and s.charlen in (None, '*'):
@@ -1825,7 +1844,170 @@ def init_value(dims, data, ftype, clen):
             if i == 0 and ftype != 'char':
                 items.append('0' if k == len(dims) - 1 else '{0}')
             else:
-                items.append(rec(prefix + [max(i, 1)] if ftype == 'char' and i == 0
-                                 else prefix + [i], k + 1))
+                items.append(rec(prefix + [i], k + 1))
         return '{' + ', '.join(items) + '}'
     return rec([], 0)
+
+# ----------------------------------------------------------------------------
+# 10. output files, command line
+# ----------------------------------------------------------------------------
+GROUPS_DOC = '''groups: all-nuclides (subroutines X(tcnuc,tdnuc)), all-low
+(subroutines Xlow(levelkeV)), all-schemes (both), primitives, bb-group,
+art-group (compton/moller/pairext + helpers), all-abcd, all (every
+subroutine/function except rnd1 and the interactive GENBBdia)'''
+PRIMITIVES = '''gamma positron electron alpha particle beta funbeta beta1
+funbeta1 beta2 funbeta2 beta_1fu funbeta_1fu fermi tgold pair nucltransk
+nucltranskl nucltransklm nucltransklm_pb pbatshell tsimpr'''.split()
+ART = 'compton moller pairext compton1 moller1 pairext1 gfang gdrot'.split()
+
+def expand_units(prog, spec):
+    procs = [u for u in prog.units if u.kind in ('subroutine', 'function')]
+    nucl = [u.name for u in procs if u.args == ['tcnuc', 'tdnuc']]
+    low = [u.name for u in procs if u.args == ['levelkev']]
+    bbg = [u.name for u in procs if re.match(r'^(bb|fe\d+_mod\d+|dshelp\d)$', u.name)]
+    groups = {'all-nuclides': nucl, 'all-low': low, 'all-schemes': nucl + low,
+              'primitives': [p for p in PRIMITIVES if p in prog.by_name],
+              'bb-group': bbg, 'art-group': [a for a in ART if a in prog.by_name],
+              'all': [u.name for u in procs if u.name not in ('rnd1', 'genbbdia')]}
+    groups['all-abcd'] = nucl + low + groups['primitives'] + bbg
+    names = []
+    for item in spec.split(','):
+        item = item.strip().lower()
+        if not item:
+            continue
+        if item in groups:
+            names.extend(groups[item])
+        elif item == 'rnd1':
+            warn('rnd1 is never translated (ref_rnd1 is supplied by the harness)')
+        elif item in prog.by_name and prog.by_name[item].kind in ('subroutine', 'function'):
+            names.append(item)
+        else:
+            raise F2XError('unknown unit or group %r' % item)
+    seen, out = set(), []
+    for n in names:
+        if n not in seen:
+            seen.add(n)
+            out.append(n)
+    return out
+
+def common_struct(cb):
+    mem = []
+    for n, ft, dims, cl in cb.members:
+        d = ''.join('[%d]' % (k + 1) for k in dims)
+        if ft == 'char':
+            d += '[%d]' % (int(cl) + 1)
+        mem.append('    %s %s%s;' % (CTYPE[ft], mangle(n), d))
+    return ('/* COMMON /%s/ (member names of %s, line %d) */\n'
+            'typedef struct ref_common_%s {\n%s\n} ref_common_%s;\n'
+            'extern ref_common_%s ref_%s;\n'
+            % (cb.name.upper(), cb.unit.name.upper(), cb.unit.line_start,
+               cb.name, '\n'.join(mem), cb.name, cb.name, cb.name))
+
+def common_instance(cb):
+    last = max(cb.init) if cb.init else -1
+    haschar = any(m[1] == 'char' for m in cb.members)
+    if last < 0 and not haschar:
+        return 'ref_common_%s ref_%s;\n' % (cb.name, cb.name)
+    if haschar:
+        last = len(cb.members) - 1
+    items = []
+    for k in range(last + 1):
+        n, ft, dims, cl = cb.members[k]
+        items.append('    /* %s */ %s' % (n, init_value(dims, cb.init.get(k), ft,
+                                                     int(cl) if cl else 0)))
+    return 'ref_common_%s ref_%s = {\n%s\n};\n' % (cb.name, cb.name, ',\n'.join(items))
+
+def generate(prog, names, out_c, out_h):
+    funcs, commons = [], []
+    translated = set(names)
+    callees = set()
+    for n in names:
+        tr = UnitTranslator(prog, prog.by_name[n], True)
+        funcs.append(tr.translate())
+        callees |= tr.callees
+        for cb in tr.used_commons:
+            if cb not in commons:
+                commons.append(cb)
+    commons.sort(key=lambda cb: list(prog.commons).index(cb.name))
+    for cb in commons:
+        if 'ref_' + cb.name in ('ref_' + n for n in prog.by_name) \
+                or cb.name in prog.externs:
+            raise F2XError('COMMON /%s/ clashes with a procedure name' % cb.name)
+    missing = sorted(c for c in callees if c not in translated and c != 'rnd1')
+    # callees defined in the file but not requested: analyse them (tolerantly)
+    # so that dummy-procedure parameter types are known
+    for c in missing:
+        u = prog.by_name.get(c)
+        if u is not None and any(u.decls.syms[a].is_proc for a in u.args):
+            try:
+                UnitTranslator(prog, u, False).translate()
+            except F2XError:
+                pass
+    guard = re.sub(r'\W', '_', out_h.split('/')[-1]).upper()
+    h = ['/* generated by f2x.py from %s - do not edit */' % prog.path.split('/')[-1],
+         '#ifndef %s' % guard, '#define %s' % guard, '#include "ref_rt.h"', '']
+    h += [common_struct(cb) for cb in commons]
+    h.append('/* translated units */')
+    for n in names:
+        h.append(prog.sig(n).proto() + ';')
+    h.append('')
+    h.append('/* callees that are not translated here: to be supplied by the harness */')
+    for c in missing:
+        sg = prog.sig(c) or prog.externs[c]
+        where = 'defined at line %d, not requested' % sg.line if sg.defined \
+            else 'not in the Fortran file, signature from call at line %d' % sg.line
+        h.append('extern %s; /* %s */' % (sg.proto(), where))
+    h += ['', '#endif', '']
+    with open(out_h, 'w') as f:
+        f.write('\n'.join(h))
+    c = ['/* generated by f2x.py from %s - do not edit */' % prog.path.split('/')[-1],
+         '#include "%s"' % out_h.split('/')[-1], '']
+    c += [common_instance(cb) for cb in commons]
+    c.append('')
+    with open(out_c, 'w') as f:
+        f.write('\n'.join(c) + '\n'.join(funcs))
+    return missing
+
+def list_units(prog):
+    out = []
+    for u in prog.units:
+        e = {'name': u.name, 'kind': u.kind, 'line_start': u.line_start,
+             'line_end': u.line_end}
+        if u.kind in ('subroutine', 'function'):
+            try:
+                e['signature'] = prog.sig(u.name).proto()
+            except F2XError as x:
+                e['signature'] = None
+                e['error'] = x.msg
+        out.append(e)
+    return out
+
+def main(argv=None):
+    ap = argparse.ArgumentParser(description=__doc__, epilog=GROUPS_DOC)
+    ap.add_argument('--src', required=True)
+    ap.add_argument('--units')
+    ap.add_argument('--out')
+    ap.add_argument('--header')
+    ap.add_argument('--list', action='store_true')
+    a = ap.parse_args(argv)
+    try:
+        prog = Program(a.src)
+        if a.list:
+            json.dump(list_units(prog), sys.stdout, indent=1)
+            sys.stdout.write('\n')
+            return 0
+        if not a.units or not a.out:
+            ap.error('--units and --out are required')
+        names = expand_units(prog, a.units)
+        hdr = a.header or re.sub(r'\.[^./]*$', '', a.out) + '.h'
+        missing = generate(prog, names, a.out, hdr)
+        sys.stderr.write('f2x: %d unit(s) translated, %d extern callee(s): %s\n'
+                         % (len(names), len(missing), ' '.join(missing)))
+        return 0
+    except F2XError as e:
+        sys.stderr.write('f2x: error: %s:%s: %s\n'
+                         % (a.src, e.line if e.line is not None else '?', e.msg))
+        return 2
+
+if __name__ == '__main__':
+    sys.exit(main())
